@@ -1,11 +1,81 @@
-"""Worlds for properties that do not run on the generic bus world (filled in per property)."""
-PROFILES = {}
-NONTRIVIAL = {}
+"""Worlds for properties that do not run on the generic bus world: C19 (retry), C20 (semaphores)."""
+from . import retry_world as rw
+
+PROFILES = {
+    'C19': [('retry', 3), ('retry_cancel_enum', 2)],
+    'C20': [('sem', 1)],
+}
+NONTRIVIAL = {
+    'C19': ('>=2 attempts were made, or the caller was cancelled mid-flight', None),
+    'C20': ('>=1 caller had to wait for a slot, timed out acquiring, or was admitted by the lax rule', None),
+}
 
 
 def make_scenario(prop, profile, seed):
+    if profile == 'retry':
+        return rw.gen_retry(seed)
+    if profile == 'retry_cancel_enum':
+        # 64 consecutive seeds: cancel at every distinct instant of the base run's model (+/- 1us and exactly)
+        base, i = seed // 64, seed % 64
+        sc = rw.gen_retry(base, cancel_at=None)
+        sc['cancel_at'] = None
+        sc['stalls'] = []
+        starts, want, tend, ties = rw.retry_model(sc)
+        instants = sorted(set([0.0] + starts + [tend] + [s + sc['timeout'] for s in starts]))
+        pts = []
+        for t in instants:
+            pts += [max(0.0, t - 1e-6), t, t + 1e-6, t + (sc['timeout'] / 3)]
+        sc['cancel_at'] = round(pts[i % len(pts)], 9)
+        sc['profile'] = 'retry_cancel_enum'
+        sc['seed'] = seed
+        return sc
+    if profile == 'sem':
+        return rw.gen_sem(seed)
     raise KeyError(profile)
 
 
 def run_one(prop, sc):
+    if sc.get('world') == 'retry':
+        res = rw.run_retry(sc)
+        if str(res['end']).startswith('harness'):
+            return {'end': res['end'], 'harness': res['end']}
+        viol = rw.check_retry(sc, res)
+        sig = (tuple(res['calls']), res['out'], res['end_t'], res['end'])
+        shape = (len(res['calls']), res['out'][0] if res['out'] else None, sc['retry_on'] is None, sc['cancel_at'] is not None,
+                 tuple(o[0] for o in sc['outcomes'][:len(res['calls'])]))
+        return {'end': res['end'], 'viol': viol, 'digest': rw.digest_of(sig), 'abstract': rw.digest_of(shape),
+                'nontrivial': len(res['calls']) >= 2 or (res['out'] or [None])[0] == 'cancelled', 'steps': res['steps'], 'vt': res['vt'],
+                'leftover': res['leftover'],
+                'faults': {k: v for k, v in {'retry_attempt_raise': sum(1 for o in sc['outcomes'][:len(res['calls'])] if o[0].startswith('raise')),
+                                              'retry_attempt_overrun': sum(1 for o in sc['outcomes'][:len(res['calls'])] if o[0] == 'overrun'),
+                                              'caller_cancel': 1 if (res['out'] or [None])[0] == 'cancelled' else 0,
+                                              'loop_stall': res['stalls_fired']}.items() if v},
+                'probes': {'attempts': len(res['calls'])}}
+    if sc.get('world') == 'sem':
+        res = rw.run_sem(sc)
+        if str(res['end']).startswith('harness'):
+            return {'end': res['end'], 'harness': res['end']}
+        viol = list(res['viol'])
+        if res['end'] != 'ok':
+            viol.append(rw.V('C20', 'hang', (res['end'],)))
+        for v in viol:
+            if v['clause'] in ('C20.runtime_error', 'C20.probe_error') and 'bound to a different event loop' in str(v.get('key')) + str(v.get('detail')):
+                v['cause'] = 'F13'
+        waited = any(t[2] == 'enter' for t in res['trace']) and _someone_waited(res['trace'])
+        shape = tuple((t[2], t[3][-2:], t[4] if len(t) > 4 else None) for t in res['trace'])
+        return {'end': res['end'], 'viol': viol, 'digest': rw.digest_of(res['trace']), 'abstract': rw.digest_of(shape),
+                'nontrivial': bool(waited or res['overflows'] or res['acq_timeouts']), 'steps': res['steps'], 'vt': res['vt'], 'leftover': 0,
+                'faults': {k: v for k, v in {'semaphore_acquire_timeout': res['acq_timeouts'], 'lax_overflow': res['overflows'], 'caller_cancel': res['cancels'],
+                                              'second_event_loop': res['nloops'] - 1}.items() if v},
+                'probes': {'waited_for_slot': int(waited)}}
     raise KeyError(prop)
+
+
+def _someone_waited(trace):
+    arrive = {}
+    for t in trace:
+        if t[2] == 'arrive':
+            arrive[t[3]] = t[1]
+        elif t[2] == 'enter' and t[3] in arrive and t[1] > arrive[t[3]] + 1e-9:
+            return True
+    return False
